@@ -40,10 +40,10 @@ checks = [
      "The failing event (refused output as Err or Ok(0), failing input request) is a free decision of the symbolic exploration at each of the first K events of every explored path, plus the configurations input absent / output absent; events up to the fault must equal the reference's, none may follow, the call returns Ok without panic.",
      BASE_NOTE + "; the baseline JIT is covered through the x86 model", SYMX + ", fault position as a solver-visible free decision"),
  chk("C10", "model_checking",
-     "execute_unsafe of the bytecode interpreter runs symbolically on a context pre-grown to the canonical excursion of each path plus the program length, the region fenced on both sides by PROT_NONE pages; events must equal the reference's and no access may leave the region.",
-     BASE_NOTE + "; the JIT's static code is bounds-checked exactly in the x86 model", SYMX + " under a guard-page allocator"),
+     "execute_unsafe of the bytecode interpreter runs symbolically on a context pre-grown to the canonical excursion of each path plus the program length, the region fenced on both sides by PROT_NONE pages; events must equal the reference's and no access may leave the region (run in the debug and in the release profile: the interpreter's dispatch differs).  The unchecked instantiation of the interpreter's move/scan ops is additionally translated from MIR and decided for every pointer, shift and condition offset: exactly shift cells per step, the condition read at cond, tape state untouched.",
+     BASE_NOTE + "; the JIT's static code is bounds-checked exactly in the x86 model", SYMX + " under a guard-page allocator; MIR-to-SMT lemmas for the unchecked move/scan ops"),
  chk("C13", "model_checking",
-     "Claimed part only: every executor build (parse, optimize, translate, threaded code) on the corpus runs under catch_unwind and each executor is executed twice on fresh contexts on every explored path, the two symbolic event logs must be identical terms.",
+     "Claimed part only: every executor build (parse, optimize, translate, threaded code) on the corpus runs under catch_unwind and a time cap, and each executor is executed twice on fresh contexts on every explored path, the two symbolic event logs must be identical terms.  Two sampling monitors (not solver-decided, labelled so in the evidence) report on the clauses this technique cannot decide: re-compilation in one process (hash seeds) and compile time on multiplication chains (blow-up guards).",
      BASE_NOTE + "; NOT claimed: independence from hash seeds, cross-process determinism, the complexity clause", SYMX),
 ]
 
